@@ -121,6 +121,11 @@ class Pseudo2NetCDF:
             typecode = pvar.typecode()
         except Exception:
             typecode = pvar[...].dtype.char
+            if typecode == 'S':
+                # character data of a variable without typecode() (e.g.,
+                # read from netCDF): numpy's bare 'S' is a string of length
+                # zero, the netCDF character type is 'S1'
+                typecode = 'S1'
 
         create_variable_kwds = self.create_variable_kwds.copy()
         if hasattr(pvar, 'missing_value'):
